@@ -13,12 +13,13 @@ import time
 import lib
 
 INVARIANTS = ["TypeOK", "RegistryInverse", "RegistryIsDeclared", "ClosureLaws", "PointLaws", "GrowLaws", "PeelLaws",
-              "BfsLaws", "HelperLaws"]
+              "BfsLaws", "HelperLaws", "SpecLaws"]
 ACTIONS = ["Define", "EndDefine", "AddDep", "EndAdds", "Ask", "GrowStart", "GrowSpread", "GrowYield", "GrowEnd",
            "Peel", "PeelEnd", "Bfs", "BfsEnd"]
 ALL_LABELS = ["none", "req", "g1", "g2", "opt", "req+opt", "g1+g2", "g1+opt"]
 FIVE = ["none", "req", "g1", "g2", "opt"]
-ALL_ASK = ["basic", "sub", "topo", "walk", "help"]
+COVERAGE_FROM = ("labels3", "kinds3", "specs4", "raw3", "help3", "types3")
+ALL_ASK = ["basic", "sub", "topo", "walk", "help", "specs"]
 
 
 def fam(Fam="prog", MinN=3, N=3, KindSet=("comp",), TypSet=("base",), GrpSet=(1,), LabelSet=("none", "req"),
@@ -39,6 +40,8 @@ FAMILIES = {
         # two component types (one a subclass of the other) and two groups
         ("types3", fam(N=3, TypSet=("base", "sub"), GrpSet=(1, 2), AskSet=("basic",))),
         ("help3", fam(N=3, LabelSet=FIVE, AskSet=("help",))),
+        # get_dependency_specs: components over registry points, every required / at-least-one shape
+        ("specs4", fam(N=4, MinN=3, KindSet=("comp", "point"), LabelSet=("none", "req", "g1"), AskSet=("specs",))),
         ("raw3", fam(Fam="raw", N=3)),
         ("sim7", fam(N=7, MinN=4, KindSet=("comp", "comp", "ds", "point"), TypSet=("base", "sub"), GrpSet=(1, 2),
                      LabelSet=FIVE, PrioSet=(0, 1, 2), MaxAdds=3, AskSet=ALL_ASK, sim=700, depth=80)),
@@ -54,6 +57,7 @@ FAMILIES = {
         ("types3", fam(N=3, TypSet=("base", "sub"), GrpSet=(1, 2), LabelSet=("none", "req", "g1"), MaxAdds=1,
                        AskSet=("basic",))),
         ("help3", fam(N=3, LabelSet=ALL_LABELS, AskSet=("help",))),
+        ("specs4", fam(N=4, MinN=3, KindSet=("comp", "ds", "point"), LabelSet=FIVE, MaxAdds=1, AskSet=("specs",))),
         ("raw3", fam(Fam="raw", N=3)),
         ("raw4", fam(Fam="raw", N=4)),
         ("sim8", fam(N=8, MinN=4, KindSet=("comp", "comp", "ds", "point"), TypSet=("base", "sub"), GrpSet=(1, 2),
@@ -61,21 +65,22 @@ FAMILIES = {
     ]),
 }
 # replayed cases per family and question (the model runs stay exhaustive; the replay takes a VERIF_SEED sample)
-CAP = {"quick": {"basic": 450, "sub": 900, "topo": 900, "walk": 500, "help": 900, "none": 729},
-       "thorough": {"basic": 10 ** 7, "sub": 60000, "topo": 60000, "walk": 30000, "help": 20000, "none": 10 ** 7}}
+CAP = {"quick": {"basic": 450, "sub": 900, "topo": 900, "walk": 500, "help": 900, "specs": 2500, "none": 729},
+       "thorough": {"basic": 10 ** 7, "sub": 60000, "topo": 60000, "walk": 30000, "help": 20000, "specs": 60000,
+                    "none": 10 ** 7}}
 NVAR = {"quick": 1, "thorough": 2}
 NSELF = {"quick": 120, "thorough": 600}
 
 # what a run must have exercised (vacuity): stats keys of the driver
 NEEDED = (["kind:comp", "kind:ds", "kind:point", "typ:base", "typ:sub", "grp:1", "grp:2", "item:req", "item:grp",
            "item:opt", "prio:-1", "prio:0", "prio:1", "add:direct", "add:specset", "with-adds", "name:early-lookup"]
-          + ["q:" + t for t in ("basic", "sub", "topo", "walk", "help", "raw")]
+          + ["q:" + t for t in ("basic", "sub", "topo", "walk", "help", "specs", "raw")]
           + ["ev:" + e for e in ("add", "deps", "name", "dgraph", "tree", "walk", "rps", "detc", "subg", "order", "help",
-                                 "stranger")]
+                                 "specs", "stranger")]
           + ["subg:several-parts", "subg:part-with-several-keys", "rps:non-empty", "walk:four-calls-or-more",
              "order:three-or-more", "order:raised:ValueError", "detc:single", "detc:list", "detc:set", "detc:type",
              "detc:group", "detc:dict", "dgraph:three-nodes-or-more", "help:missing-none", "help:missing-pair",
-             "help:first_of-found", "deps:after-add", "tree:deps", "tree:dents", "raw:self-dependency", "raw:raised",
+             "help:first_of-found", "specs:var", "specs:or", "specs:and", "specs:list-in-tuple", "deps:after-add", "tree:deps", "tree:dents", "raw:self-dependency", "raw:raised",
              "raw:int", "raw:str", "raw:obj", "raw:tuple"])
 
 ASSUMPTIONS = [
@@ -137,7 +142,8 @@ def model_runs(tier):
         p = os.path.join(gen, "mc_%s.cfg" % name)
         with open(p, "w") as fh:
             fh.write(cfg_text(f, INVARIANTS, True))
-        kw = dict(workers=2 if lib.NCPU >= 4 else 1, raw_cases=True, coverage=True)
+        # per-action counts (vacuity) from the small runs; they take every action between them
+        kw = dict(workers=2 if lib.NCPU >= 4 else 1, raw_cases=True, coverage=name in COVERAGE_FROM)
         if f["sim"]:
             kw.update(simulate=max(1, f["sim"] // kw["workers"]), depth=f["depth"], tlc_seed=lib.seed() + 1)
         jobs.append((name, p, kw))
@@ -210,6 +216,8 @@ def corrupt(trace, rng):
             pass
         elif k == "help":
             cands += [(i, "help:missing-flipped"), (i, "help:first-other")]
+        elif k == "specs":
+            cands.append((i, "specs:never-met"))
         elif k == "stranger":
             cands.append((i, "stranger:graph-returned"))
     # cyclic inputs whose exception is demanded
@@ -274,6 +282,8 @@ def corrupt(trace, rng):
             e["missk"], e["mall"], e["many"] = "none", [], []
     elif how == "help:first-other":
         e["first"] = 0 if e["first"] else 1
+    elif how == "specs:never-met":
+        e["f"] = e["f"] + [dict(t="or", n=0, xs=[])]
     elif how == "stranger:graph-returned":
         e["gexc"], e["isgraph"] = "", True
     t["events"] = [evs[0]] + [x for x in evs[1:i] if x["ev"] == "add"] + [e]
@@ -347,6 +357,10 @@ def run(prop, tier):
 
     # binding self-test: accepted traces with one corrupted observation must be rejected
     t1 = time.time()
+    verdict = lib.Verdict(prop, tier)
+    # every kind of corruption must have been tried - unless the run is a VIOLATION anyway and the accepted
+    # traces no longer offer every kind of observation
+    strict = all(lib.sig(prop, r["clause"]) in verdict.known for r in val["rejected"])
     pool = [t for t in traces if t["id"] not in rejected]
     rng.shuffle(pool)
     selftest = []
@@ -366,14 +380,13 @@ def run(prop, tier):
                                jobs=1)
     caught = set(r["id"] for r in sval["rejected"])
     missed = [t["id"] for t in selftest if t["id"] not in caught]
-    if missed or len(kinds_seen) < 20:
+    if missed or not selftest or (strict and len(kinds_seen) < 20):
         raise lib.MachineryError("binding self-test: %d corrupted traces were accepted, e.g. %s (kinds exercised: %d)"
                                  % (len(missed), missed[:3], len(kinds_seen)))
     kinds = sorted(kinds_seen)
     print("timing: self-test %.1fs (%d corrupted traces rejected, %d kinds)" % (time.time() - t1, len(selftest), len(kinds)))
 
     bycase = dict((c["id"], c) for c in cases)
-    verdict = lib.Verdict(prop, tier)
     rejected_events = 0
     for t in traces:
         for rj in sorted(rejected.get(t["id"], []), key=lambda r: r["line"]):
@@ -394,7 +407,7 @@ def run(prop, tier):
             if case_features(c):
                 nontriv += 1
     samples = []
-    for qt in ("sub", "topo", "walk", "basic", "help", "none"):
+    for qt in ("sub", "topo", "walk", "specs", "basic", "help", "none"):
         for t in traces:
             h = t["events"][0]
             if t["id"] not in rejected and (h.get("q", {}).get("t") == qt or (qt == "none" and h["ev"] == "raw")) \
